@@ -41,26 +41,38 @@ RX_EVENTS = ("transport:packet_received", "transport:packet_dropped", "transport
 
 
 def finish_positions(tr, ep):
-    """The harness calls close() (= finish + flush) immediately after the last successful write of a stream
-    (or right after open when it writes nothing); the `finish`/`err <sid> close` record only appears when the
-    call RESOLVES (all data acknowledged). Returns {record idx: [sid]} = where the finish call really happened."""
+    """Where the application called finish (the harness calls close() = finish + flush immediately after the
+    last successful write of a stream, or right after open when it writes nothing). The `finish` / `err <sid>
+    close` record only appears when the call RESOLVES (all data acknowledged) and is missing when the run ends
+    first, so the call is located as: the last open/write record of the stream before the first evidence that
+    finish was called (a FIN on the wire, or the finish / err-close record). A FIN sent before the application
+    was done writing therefore shows up as `write-after-finish`.
+    Returns {record idx: [sid]}."""
     last = {}       # sid -> idx of the last open/write record of this endpoint
-    called = set()
-    for r in tr.recs:
-        if r.kind != "app" or r.ep != ep:
-            continue
-        if r.what == "open" and r.args[1] in ("bidi", "uni", "peer-bidi"):
-            last[int(r.args[0])] = r.idx
-        elif r.what == "write":
-            last[int(r.args[0])] = r.idx
-        elif r.what == "finish":
-            called.add(int(r.args[0]))
-        elif r.what == "err" and r.args[0] != "-" and r.args[1] == "close":
-            called.add(int(r.args[0]))
+    placed = set()
     out = {}
-    for sid in called:
-        if sid in last:
-            out.setdefault(last[sid], []).append(sid)
+
+    def place(sid):
+        if sid in placed or sid not in last:
+            return
+        placed.add(sid)
+        out.setdefault(last[sid], []).append(sid)
+
+    for r in tr.recs:
+        if r.kind == "app" and r.ep == ep:
+            if r.what == "open" and r.args[1] in ("bidi", "uni", "peer-bidi"):
+                last[int(r.args[0])] = r.idx
+            elif r.what == "write":
+                if int(r.args[0]) not in placed:
+                    last[int(r.args[0])] = r.idx
+            elif r.what == "finish":
+                place(int(r.args[0]))
+            elif r.what == "err" and r.args[0] != "-" and r.args[1] == "close":
+                place(int(r.args[0]))
+        elif r.kind == "txp" and r.ep == ep and r.space == "app":
+            for f in r.frames:
+                if f["type"] == "STREAM" and f["fin"]:
+                    place(f["id"])
     return out
 
 
